@@ -111,7 +111,7 @@ class Cases(object):
             self.valid_certs[k] = ok
         return self.valid_certs[k]
 
-    def add_doc(self, fam, cs, kind, bname, xml, meta, r, signer=None, soap_env=g.SOAP_ENV, note=None, via=None):
+    def add_doc(self, fam, cs, kind, bname, xml, meta, r, signer=None, soap_env=g.SOAP_ENV, note=None, via=None, tag=None):
         """a well-formed request document sent cleanly over the binding"""
         term, f = g.doc_coq(xml, meta["valid"])
         if bname == "soap":
@@ -120,11 +120,12 @@ class Cases(object):
             wire = "(WText (Xml %s))" % term
         text = g.encode(xml, bname, soap_env)
         facts = dict(doc=f, meta=meta, signer=signer, r=r)
-        self.add(fam, cs, kind, bname, text, wire, facts, note, via)
+        self.add(fam, cs, kind, bname, text, wire, facts, note, via, tag)
 
-    def add(self, fam, cs, kind, bname, text, wire, facts, note=None, via=None):
+    def add(self, fam, cs, kind, bname, text, wire, facts, note=None, via=None, tag=None):
+        """tag: position in a history - the same text sent AGAIN to the same long-lived receiver is a case of its own"""
         ctx = self.ctx
-        ident = (repr(sorted(cs.items())), kind, bname, text, via)
+        ident = (repr(sorted(cs.items())), kind, bname, text, via, tag)
         if ident in self.seen:
             return
         self.seen.add(ident)
@@ -158,6 +159,8 @@ class Cases(object):
         show = dict(family=fam, cfg={k: v for k, v in cs.items()}, kind=kind, binding=bname, note=note)
         if via:
             show["via"] = via
+        if tag is not None:
+            show["history"] = tag
         if facts:
             show["mutation"] = facts["meta"].get("name")
             show["request"] = facts["r"]
@@ -212,8 +215,12 @@ class Cases(object):
             return
         mname = meta.get("name")
 
+        # a request carrying kind-specific optional attributes: the key names the kind and the attributes
+        osfx = ":%s:opts=%s" % (kind, "+".join(r["opts"])) if r.get("opts") else ""
+
         def fail(key, what):
-            ctx.oracle_fail(key, what + " [%s over %s, mutation %s]" % (kind, bname, mname), replay)
+            ctx.oracle_fail(key + osfx, what + " [%s over %s, mutation %s%s]" % (
+                kind, bname, mname, ", optional content %s" % r["opts"] if osfx else ""), replay)
         if d["root_tag"] != "{%s}%s" % (g.SAMLP, KINDS[kind]["tag"]):
             fail("wrong-root-handed-over:%s:%s" % (kind, d["root_tag"]), "a %s was handed over by %s" % (d["root_tag"], KINDS[kind]["method"]))
         if not d["valid"]:
@@ -621,6 +628,153 @@ def fam_encodings(C, quick):
     C.add_doc("encoding", cs, "authz", "soap", g.request_xml(r), _named(dict(valid=True, modified=False, wrap=None), "none"), r)
 
 
+PLAIN = dict(valid=True, modified=False, wrap=None, name="none")
+_SLACKS = [None, 0, 60, 300]
+
+
+def _swapped(cs, kind, bname):
+    """own addresses of this receiver that are NOT its addresses for (service of kind, binding): the endpoint of the same
+    service for another binding, and the endpoint of another service for the same binding"""
+    own = set(u for u in g.own_endpoints(cs, KINDS[kind]["service"], bname) if u)
+    out = []
+    for b2 in MAIN_B:
+        for u in g.own_endpoints(cs, KINDS[kind]["service"], b2):
+            if u and u not in own and u not in out:
+                out.append(u)
+                break
+    for k2 in KIND_ORDER:
+        if k2 != kind:
+            for u in g.own_endpoints(cs, KINDS[k2]["service"], bname):
+                if u and u not in own and u not in out:
+                    out.append(u)
+                    return out
+    return out
+
+
+def _optional_clauses(C, fam, etype, eps, kind, bname, opts, slacks, quick, via=None):
+    """one request kind WITH a set of its optional attributes, crossed with every clause of the property.  Order on each
+    long-lived receiver: the valid request first, then the ones to refuse, the valid one again last."""
+    issuer, key = SENDER[etype], SENDER_KEY[etype]
+    base = cfgspec(etype=etype, eps=eps)
+    own = [u for u in g.own_endpoints(base, KINDS[kind]["service"], bname) if u]
+    dest0 = own[0] if own else None
+
+    def send(cs, r, sign=None, tag=None, mut=None):
+        x = g.request_xml(r, sign=sign)
+        meta = PLAIN
+        if mut:
+            mm = g.mutate(x, mut, r)
+            x, meta = mm[0], _named(mm[1], mut.split(":")[0])
+        C.add_doc(fam, cs, kind, bname, x, meta, r, signer=sign, via=via, tag=tag)
+    # (i) the IssueInstant window: edges -2..+2 s around +-(86400 + allowance)
+    for slack in slacks:
+        cs = cfgspec(etype=etype, eps=eps, slack=slack)
+        w = 86400 + (slack or 0)
+        valid = rspec(kind=kind, issuer=issuer, destination=dest0, opts=opts)
+        send(cs, valid, tag="first")
+        for dt in [-w - 2, -w - 1, -w, -w + 1, -w + 2, w - 2, w - 1, w, w + 1, w + 2]:
+            send(cs, rspec(kind=kind, issuer=issuer, destination=dest0, dt=dt, opts=opts))
+        send(cs, valid, tag="again")
+    # (ii) Destination: swapped with another own endpoint, foreign, near miss
+    cs = base
+    for d in _swapped(base, kind, bname) + [g.EVIL + "x"] + ([dest0 + "/"] if dest0 else []):
+        send(cs, rspec(kind=kind, issuer=issuer, destination=d, opts=opts))
+    # (iii) Version, schema validity
+    send(cs, rspec(kind=kind, issuer=issuer, destination=dest0, version="2.1", opts=opts))
+    r = rspec(kind=kind, issuer=issuer, destination=dest0, opts=opts)
+    x = ET.fromstring(g.request_xml(r))
+    del x.attrib["ID"]
+    C.add_doc(fam, cs, kind, bname, ET.tostring(x, encoding="unicode"), _named(dict(valid=False, modified=True, wrap=None), "drop-ID"), r, via=via)
+    send(cs, r, tag="after-refusals")
+    # (iv) signatures wanted (IdP / AA; an SP has no such option - there the signed ones are checked all the same)
+    w = 86400
+    for want, ovc in ([(True, None)] if quick else [(True, None), (None, True)]):
+        cs = cfgspec(etype=etype, eps=eps, want=want, ovc=ovc)
+        send(cs, r, sign=key, tag="first")
+        send(cs, r)                                                   # unsigned but wanted
+        send(cs, rspec(kind=kind, issuer=issuer, destination=dest0, dt=-w - 1, opts=opts), sign=key)   # signed, stale
+        send(cs, rspec(kind=kind, issuer=issuer, destination=dest0, dt=w + 1, opts=opts), sign=key)    # signed, dated ahead
+        send(cs, rspec(kind=kind, issuer=issuer, destination=g.EVIL + "x", opts=opts), sign=key)       # signed for somebody else
+        send(cs, r, sign="other")                                     # signed by a key the metadata does not hold
+        send(cs, r, sign=key, mut="edit-content")                     # edited after signing
+        if not quick or opts[0].startswith(("noa", "cond", "sc", "subject-sc")):
+            send(cs, r, sign=key, mut="edit-issue-instant")
+            send(cs, r, sign=key, mut="strip-signature")
+        send(cs, r, sign=key, tag="again")
+    if not quick:
+        cs = cfgspec(etype=etype, eps=eps, ovc=True)
+        send(cs, r)
+
+
+def fam_optional(C, quick):
+    """(a) every request kind WITH each optional attribute / child of that kind (LogoutRequest NotOnOrAfter ahead / past,
+    Reason, SessionIndex; AuthnRequest Conditions, Subject, ForceAuthn / IsPassive, Scoping, ...; the queries' and
+    ManageNameID / NameIDMapping requests' own optional children) x binding x every clause"""
+    n = 0
+    for kind in KIND_ORDER:
+        for bname in MAIN_B:
+            if kind == "authz" and bname == "soap":
+                continue                                              # no SOAP reader for this kind (fam_encodings)
+            if quick and bname == "redirect" and kind not in ("authn", "logout"):
+                continue
+            for opts in g.OPT_SETS[kind]:
+                n += 1
+                slacks = [_SLACKS[n % 4]] if quick else _SLACKS
+                _optional_clauses(C, "optional-content", "idp", "full", kind, bname, opts, slacks, quick)
+    # an SP taking LogoutRequest / ManageNameIDRequest of the IdP, an attribute authority of its own
+    for etype, eps, kinds in [("sp", "sp-full", ["logout", "mni"]), ("aa", "aa-only", ["attrq", "authnq", "logout"])]:
+        for kind in kinds:
+            for bname in (["soap", "post"] if quick else MAIN_B):
+                for opts in g.OPT_SETS[kind]:
+                    n += 1
+                    _optional_clauses(C, "optional-content", etype, eps, kind, bname, opts, [_SLACKS[n % 4]] if quick else _SLACKS, quick)
+    # the library's own consumer of a LogoutRequest: it must not ACT on what _parse_request would not hand over
+    for bname in ["soap", "post"] + ([] if quick else ["redirect"]):
+        for opts in g.OPT_SETS["logout"]:
+            if quick and not (opts[0].startswith("noa") or len(opts) > 1):
+                continue
+            n += 1
+            _optional_clauses(C, "optional-content", "sp", "sp-full", "logout", bname, opts, [_SLACKS[n % 4]] if quick else _SLACKS, quick,
+                              via="handle_logout_request")
+
+
+def fam_history(C, quick, rng):
+    """(b) ONE long-lived receiver per configuration taking in a long sequence: valid requests of a kind / binding, then
+    requests to refuse of the SAME kind / binding, then the valid one again - with and without optional content.  The
+    model has no state (C10_history); the same text sent again is a case of its own."""
+    for etype, eps, kinds in [("idp", "full", KIND_ORDER), ("sp", "sp-full", ["logout", "mni"]), ("aa", "aa-only", ["attrq", "authnq", "logout"])]:
+        issuer, key = SENDER[etype], SENDER_KEY[etype]
+        for want in ([None, True] if etype != "sp" else [None]):
+            cs = cfgspec(etype=etype, eps=eps, want=want, slack=60)
+            w = 86400 + 60
+            step = 0
+            for rnd in range(2 if quick else 6):
+                for kind in kinds:
+                    for bname in ["post", "soap"]:
+                        if kind == "authz" and bname == "soap":
+                            continue
+                        own = [u for u in g.own_endpoints(cs, KINDS[kind]["service"], bname) if u]
+                        dest0 = own[0] if own else None
+                        opts = rng.choice([None] + g.OPT_SETS[kind])
+                        sign = key if (want or rng.random() < 0.5) else None
+                        good = rspec(kind=kind, issuer=issuer, destination=dest0, opts=opts)
+                        bad = [(rspec(kind=kind, issuer=issuer, destination=dest0, dt=rng.choice([-w - 1, w + 1, -w - 2, w + 2]), opts=opts), sign, None),
+                               (rspec(kind=kind, issuer=issuer, destination=g.EVIL + "x", opts=opts), sign, None),
+                               (good, None if want else "other", None),
+                               (good, key, "edit-content"),
+                               (rspec(kind=kind, issuer=issuer, destination=dest0, version="1.1", opts=opts), sign, None)]
+                        rng.shuffle(bad)
+                        for r, sg, mut in [(good, sign, None), (good, sign, None)] + bad[:3] + [(good, sign, None)]:
+                            step += 1
+                            x = g.request_xml(r, sign=sg)
+                            meta = PLAIN
+                            if mut:
+                                mm = g.mutate(x, mut, r)
+                                x, meta = mm[0], _named(mm[1], mut)
+                            C.add_doc("history", cs, kind, bname, x, meta, r, signer=sg, tag="step-%d" % step)
+
+
+
 def fam_random(C, quick, rng):
     """seeded random combinations of everything above"""
     n = 350 if quick else 25000
@@ -640,7 +794,8 @@ def fam_random(C, quick, rng):
         dest = rng.choice([None, None, ""] + own + own + [u + "/" for u in own[:1]] + [g.EVIL])
         dt = rng.choice([0, 0, 0, rng.randint(-w + 1, w - 1), -w - rng.randint(1, 100), w + rng.randint(1, 100), -w + 1, w - 1])
         issuer = rng.choice([SENDER[etype]] * 4 + [env.SP2_ID if etype != "sp" else env.IDP2_ID, g.UNKNOWN_SP])
-        r = rspec(kind=kind, issuer=issuer, destination=dest, dt=dt, version=rng.choice(["2.0"] * 6 + ["1.1", "2.1"]))
+        r = rspec(kind=kind, issuer=issuer, destination=dest, dt=dt, version=rng.choice(["2.0"] * 6 + ["1.1", "2.1"]),
+                  opts=rng.choice([None, None] + g.OPT_SETS[kind]))
         key = rng.choice([None, SENDER_KEY[etype], SENDER_KEY[etype], "other"])
         if key is None:
             C.add_doc("random", cs, kind, bname, g.request_xml(r), _named(dict(valid=True, modified=False, wrap=None), "none"), r)
@@ -667,6 +822,8 @@ def run(ctx):
         fam_handle_logout(C, ctx.quick)
         fam_wrong_root(C, ctx.quick)
         fam_encodings(C, ctx.quick)
+        fam_optional(C, ctx.quick)
+        fam_history(C, ctx.quick, ctx.rng)
         fam_random(C, ctx.quick, ctx.rng)
     ctx.exhaustive = False
     # the regenerated table against the harness's own copy of the documented one (the Coq theorem compares it with the model's)
@@ -674,7 +831,7 @@ def run(ctx):
     for k in KIND_ORDER:
         d = KINDS[k]
         row = rows.get(d["method"])
-        want = [d["tag"], d["msgtype"], d["service"], d["msgtype"], True, [d["tag"]], d["soap"], [d["tag"]] if d["soap"] else []]
+        want = [d["tag"], d["msgtype"], d["service"], d["msgtype"], True, [d["tag"]], d["soap"], [d["tag"]] if d["soap"] else [], []]
         if row is None or list(row[1:]) != want:
             ctx.oracle_fail("entry-point-table:%s" % d["method"], "the entry point %s no longer maps to (%s, %s): recorded %r" % (
                 d["method"], d["tag"], d["service"], row), dict(method=d["method"], recorded=row))
